@@ -106,8 +106,8 @@ def families(q):
     fam = []
     if q:
         fam.append(("lists", dict(OpNames=LIST_OPS | {"Reopen"}, Depth=2, Types={"bullet", "decimal", "lowerRoman"},
-                                  Syms={"dot", "dash"}, LvlCodes=lvls_q, Starts={0, 1, 5}, MLStarts={1, 5}, MLLen=2, MaxK=2)))
-        fam.append(("notes", dict(OpNames=NOTE_OPS | {"Reopen"}, Depth=3, NTexts={"note a", ""}, Runs={"para", "detached"},
+                                  Syms={"dot", "dash"}, LvlCodes=lvls_q, Starts={1, 5}, MLStarts={1, 5}, MLLen=2, MaxK=2)))
+        fam.append(("notes", dict(OpNames=NOTE_OPS | {"Reopen"}, Depth=3, Runs={"para", "detached"},
                                   Refs={"gone", "bogus", "sep"}, CfgStarts={0, 5}, MaxK=2)))
         fam.append(("notes2", dict(ND=2, OpNames={"AddFootnote", "AddEndnote", "RemoveFootnote", "RemoveEndnote"}, Depth=3,
                                    Refs={"other"}, MaxK=1)))
